@@ -70,9 +70,9 @@ func c10Load(data []byte) c10Loaded {
 }
 
 type c10Eff struct {
-	counts, settings, onStartup  string
+	counts, settings, onStartup   string
 	kubes, scheds, val, mut, conv []string
-	typed                        string // c10Digest of the typed (decoded) document: equal for YAML and JSON
+	typed                         string // c10Digest of the typed (decoded) document: equal for YAML and JSON
 }
 
 func c10Evs(k htypes.OnKubernetesEventConfig) []string {
@@ -230,7 +230,7 @@ func c10RunDoc(c *Case, d c10Doc, policy string) string {
 // ------------------------------------------------------------------ generator of valid documents
 
 func c10Bptr(b bool) *bool { return &b }
-func c10Iptr(i int) *int    { return &i }
+func c10Iptr(i int) *int   { return &i }
 
 func c10GenLabelSel(rng *Rng) *metav1.LabelSelector {
 	ls := &metav1.LabelSelector{}
@@ -727,19 +727,19 @@ func c10Malformed(rng *Rng, base []byte) []byte {
 var c10OddStrings = map[string][]string{
 	"crontab": {"*/0 * * * *", "0-59/0 * * * * *", "1-0 * * * *", "@every", "@every -1s", "@every 0s", "@every 1x", "? ? ? ? ?", "*/99999999999999999999 * * * *",
 		"TZ=Nowhere * * * * *", "TZ=UTC", "1,,2 * * * *", "* * * JAN MON", "*/+0 * * * *", "*/-0 * * * *", "*/ * * * *", "/ * * * *", "*/1/2 * * * *", "1-2-3 * * * *", "@", "@@", " ", "\t* * * * *", "* * * * * *  ", "⏰ * * * *"},
-	"executionMinInterval": {"", "abc", "1h1", "-5s", "9223372036854775807ns", "9223372036854775808ns", "1e3s", ".5s", "5", "1.5h", "+3s", "3 s", "١s"},
-	"apiVersion":           {"/", "a/b/c", "/v1", "v1/", " ", "apps/v1 ", "a//b", "%", "\u0000"},
-	"key":                  {"", " ", "a b", "a/b/c", "/", "a/", "/a", strings.Repeat("k", 70), "k8s.io/" + strings.Repeat("n", 64), "-a", "a-", "A_b.c", "é"},
-	"operator":             {"In", "NotIn", "Exists", "DoesNotExist"},
-	"field":                {"", "metadata.name", "metadata.namespace", "a=b", "a,b", "a!=b", " ", "=", "\\"},
-	"value":                {"", "a,b", "a=b", "\\", "\\,", " ", strings.Repeat("v", 300)},
-	"name":                 {"", " ", "kubernetes", "schedule", "onStartup", "a b", "a\nb", "é", strings.Repeat("n", 300), "a.b.c", "A.b.c", "a..b.c", "-a.b.c", "a.b.c.", "*.b.c", "1.2.3"},
-	"crdName":              {"", "a", "a.b", " ", "/"},
-	"fromVersion":          {"", "v1", "a/v1", "//"},
-	"kind":                 {"", " ", "pod", "Pod/status", "*"},
-	"jqFilter":             {"", ".", "..", "|", "[", ".a | error", "input", "$__loc__", "\\("},
+	"executionMinInterval":    {"", "abc", "1h1", "-5s", "9223372036854775807ns", "9223372036854775808ns", "1e3s", ".5s", "5", "1.5h", "+3s", "3 s", "١s"},
+	"apiVersion":              {"/", "a/b/c", "/v1", "v1/", " ", "apps/v1 ", "a//b", "%", "\u0000"},
+	"key":                     {"", " ", "a b", "a/b/c", "/", "a/", "/a", strings.Repeat("k", 70), "k8s.io/" + strings.Repeat("n", 64), "-a", "a-", "A_b.c", "é"},
+	"operator":                {"In", "NotIn", "Exists", "DoesNotExist"},
+	"field":                   {"", "metadata.name", "metadata.namespace", "a=b", "a,b", "a!=b", " ", "=", "\\"},
+	"value":                   {"", "a,b", "a=b", "\\", "\\,", " ", strings.Repeat("v", 300)},
+	"name":                    {"", " ", "kubernetes", "schedule", "onStartup", "a b", "a\nb", "é", strings.Repeat("n", 300), "a.b.c", "A.b.c", "a..b.c", "-a.b.c", "a.b.c.", "*.b.c", "1.2.3"},
+	"crdName":                 {"", "a", "a.b", " ", "/"},
+	"fromVersion":             {"", "v1", "a/v1", "//"},
+	"kind":                    {"", " ", "pod", "Pod/status", "*"},
+	"jqFilter":                {"", ".", "..", "|", "[", ".a | error", "input", "$__loc__", "\\("},
 	"resynchronizationPeriod": {"", "abc", "-1s"},
-	"expression":           {"", "(", "true"},
+	"expression":              {"", "(", "true"},
 }
 
 func c10Odd(rng *Rng, key string, v any) any {
